@@ -55,6 +55,7 @@ type Output struct {
 	GateRuns   int             `json:"determinism_gate_runs"`
 	WallS      float64         `json:"wall_s"`
 	Race       bool            `json:"race_build"`
+	Aborted    string          `json:"aborted,omitempty"` // the worker stopped early (e.g. determinism gate); what it found so far is reported
 }
 
 type Ctx struct {
@@ -219,6 +220,11 @@ func (c *Ctx) RunSched(sc Sched) {
 	if c.Shard == 0 {
 		if msg := c.gate(sc); msg != "" {
 			fmt.Fprintf(os.Stderr, "HARNESS ERROR: determinism gate failed for %s/%s: %s\n", c.Prop, sc.Name, msg)
+			if len(msg) > 1500 {
+				msg = msg[:1500]
+			}
+			c.Out.Aborted = fmt.Sprintf("determinism gate failed for %s/%s: %s", c.Prop, sc.Name, msg)
+			c.Emit() // violations found by earlier scenarios are not lost
 			os.Exit(2)
 		}
 	}
